@@ -18,7 +18,54 @@ def _contracts():
     return STD
 
 
+FOUND = []
+
+ERR_SOURCES = ['#(', '#let x = (1,', '$ x', '*bold', '#{ let }', '#f(a b)', '  #(  \n\n', '#(\t']
+OK_SOURCES = ['', 'a', '#let x = 1', '= Head\n\n  - item  \n', '```\nraw  \n```', '#{\n  let a = 1\n\n  let b = 2\n}', '/* c  \n*/']
+
+
+def native_confirm(S):
+    """evaluate the refusal / fallback / hygiene observables of the public API natively on a small corpus x configurations"""
+    from mirsym.session import hexs, unhexs
+    from .common import hygiene_ok, show
+    for w, t in ((80, 2), (0, 0), (1, 1), (120, 4), (7, 3), (40, 8)):
+        for src in ERR_SOURCES:
+            if S.driver.call('erroneous', hexs(src))[1] != '1':
+                continue
+            r = S.driver.call('format', hexs(src), w, t, 0)
+            if r[0] != 'err':
+                return dict(api='Typstyle::format_content', source=src, width=w, tab=t, what='erroneous source %s is not refused (width %d, tab %d): %s' % (show(src), w, t, r[0]))
+            r = S.driver.call('format_with_width', hexs(src), w)
+            if r[0] != 'ok' or unhexs(r[1]) != src:
+                return dict(api='format_with_width', source=src, width=w, what='format_with_width does not return the erroneous input %s unchanged (width %d)' % (show(src), w))
+        for src in OK_SOURCES:
+            r = S.driver.call('format', hexs(src), w, t, 0)
+            if r[0] != 'ok':
+                return dict(api='Typstyle::format_content', source=src, width=w, tab=t, what='well-formed source %s is refused or panics (width %d, tab %d): %s' % (show(src), w, t, r[0]))
+            out = unhexs(r[1])
+            if not hygiene_ok(out):
+                return dict(api='Typstyle::format_content', source=src, width=w, tab=t, output=out, what='output for %s breaks hygiene (width %d, tab %d): %s' % (show(src), w, t, show(out)))
+            if t == 2:
+                r2 = S.driver.call('format_with_width', hexs(src), w)
+                if r2[0] != 'ok' or unhexs(r2[1]) != out:
+                    return dict(api='format_with_width', source=src, width=w, what='format_with_width(%s, %d) differs from format_content with Config{max_width, defaults}' % (show(src), w))
+    return None
+
+
+def report(S):
+    if not FOUND:
+        return
+    w = native_confirm(S)
+    for lab in sorted(set(FOUND)):
+        if w:
+            S.violation('lib-skeleton:' + lab, 'library entry points: %s; %s' % (lab, w['what']), dict(api=w, structural=lab))
+        else:
+            S.inconclusive.append('library skeleton deviates (%s) but no native reproduction over the configuration corpus' % lab)
+    del FOUND[:]
+
+
 def run(S, want_witness=True):
+    del FOUND[:]
     core = S.core
     contracts = _contracts()
     f_inspect = S.find_fn(core, 'Typstyle::format_source_inspect')
@@ -105,7 +152,7 @@ def run(S, want_witness=True):
     ob, ex = S.explore('lib.format_source_inspect', 'Err iff root.erroneous(); Ok value = strip(render(convert_markup(root), cfg.max_width))',
                        body_inspect, bounds=dict(config='all 64-bit tab/width/blank, both reorder values', erroneous='symbolic'))
     for lab, mdl, info in ex.violations:
-        S.violation('lib-skeleton:' + lab, 'library entry point skeleton: ' + lab, dict(kind='structural', detail=lab))
+        FOUND.append(lab)
     if want_witness:
         S.require_witness(ob, ['refused', 'accepted'])
 
@@ -135,7 +182,7 @@ def run(S, want_witness=True):
 
     ob, ex = S.explore('lib.format_content', 'format_content(c) = format_source_inspect(Source::detached(c), no-op)', body_content)
     for lab, mdl, info in ex.violations:
-        S.violation('lib-skeleton:' + lab, 'library entry point skeleton: ' + lab, dict(kind='structural', detail=lab))
+        FOUND.append(lab)
 
     # (c) format_with_width ----------------------------------------------------------------
     def body_width(ctx):
@@ -164,9 +211,10 @@ def run(S, want_witness=True):
 
     ob, ex = S.explore('lib.format_with_width', 'format_with_width(c,w) = c if erroneous else format with Config{max_width:w, defaults}', body_width)
     for lab, mdl, info in ex.violations:
-        S.violation('lib-skeleton:' + lab, 'library entry point skeleton: ' + lab, dict(kind='structural', detail=lab))
+        FOUND.append(lab)
     if want_witness:
         S.require_witness(ob, ['fallback', 'formatted'])
+    report(S)
     S.assumptions += [
         'parser fact: the root of a parsed Source is a Markup node (root.cast::<Markup>() is Some)',
         'Source::detached(text).root().erroneous() is a function of the text only (one symbolic Bool)',
